@@ -1160,7 +1160,7 @@ func runConc(script, outPath string) {
 	out.Flush()
 
 	h.store = &lockedStore{st: newStore(cfg.codec), delayPermille: cfg.delayPermille, delayMaxUs: cfg.delayMaxUs, saveFailPermille: cfg.saveFail}
-	sessions.Persistence = h.store
+	sessions.Persistence = viaExtendable(h.store)
 	sessions.MaxSessionCacheSize = cfg.cache
 	sessions.SessionIDExpiry = cfg.idExpiry
 	sessions.SessionIDGracePeriod = cfg.grace
